@@ -23,37 +23,32 @@ Definition agree (s : sys) : Prop :=
   (forall t, mem t (paused (cl s)) = true -> delivered (mg s) t = false).
 
 (* ------------------------------------------------------------------------------------------------
-   C02_agree, the property as stated:
-
-       Theorem C02_agree : forall ops, agree (run sys_init ops).
-
-   It is FALSE of the current code (known finding `agree:resubscribe-all`): a second subscribe naming
-   ALL_MESSAGE_TYPES makes add_subscription add the module to subscriptions[ALL] and then discard it
-   again while clearing Module.subs = {ALL}.
+   C02_agree, the property as stated, for EVERY operation history (no exclusion).
+   History: on the snapshot tree this was false - a second subscribe naming ALL_MESSAGE_TYPES made
+   add_subscription add the module to subscriptions[ALL] and then discard it again; fixed in /repo by
+   a892a86 (known_findings.d/client.txt `fixed:` agree:resubscribe-all).  Gen/MgrSub.v is regenerated from the
+   code on every run, so a reordering of those statements breaks Proofs/SubsProofs.v add_all_memb again.
    ------------------------------------------------------------------------------------------------ *)
-Theorem C02_agree_refuted : exists ops, ~ agree (run sys_init ops).
-Proof.
-  exists [OSub [ALL_MESSAGE_TYPES]; OSub [ALL_MESSAGE_TYPES]]. intros [H _].
-  specialize (H 1). vm_compute in H. discriminate.
-Qed.
+Theorem C02_agree : forall ops, agree (run sys_init ops).
+Proof. intros ops. exact (Inv_agree _ (run_Inv ops sys_init Inv_init)). Qed.
 
-(* Holds for every history that does not re-issue a subscribe/resume naming ALL_MESSAGE_TYPES while already
-   subscribed to all (decidable: Model/ClientSubs.v no_resub_all). *)
-Theorem C02_agree_partial : forall ops, no_resub_all sys_init ops = true -> agree (run sys_init ops).
-Proof. intros ops H. exact (Inv_agree _ (run_Inv ops sys_init Inv_init H)). Qed.
-
-(* the exclusion is satisfiable by a history that uses every operation, ALL mixed with individual types,
-   duplicates, pausing something never subscribed, and a refused call *)
-Example C02_agree_partial_nonvacuous :
+(* a history that uses every operation, ALL mixed with individual types, duplicates, pausing something never
+   subscribed, a refused call and a repeated subscribe-to-all *)
+Example C02_agree_nonvacuous :
   let ops := [OSub [10; 11; 11]; OPause [11; 12]; OResume [12]; OSub [7; ALL_MESSAGE_TYPES]; OUnsub [10];
-              OPauseAll; OSub [10; 13]; OPause [13]; OResumeAll; OUnsubAll; OResume [ALL_MESSAGE_TYPES; 5]] in
-  no_resub_all sys_init ops = true /\ reported (cl (run sys_init ops)) 99 = true /\
-  delivered (mg (run sys_init ops)) 99 = true.
+              OSub [ALL_MESSAGE_TYPES]; OResume [ALL_MESSAGE_TYPES; 3];
+              OPauseAll; OSub [10; 13]; OPause [13]; OResumeAll; OUnsubAll; OResume [ALL_MESSAGE_TYPES; 5];
+              OSub [ALL_MESSAGE_TYPES]] in
+  reported (cl (run sys_init ops)) 99 = true /\ delivered (mg (run sys_init ops)) 99 = true /\
+  let ops' := [OSub [10; 11]; OPause [11; 12]] in
+  reported (cl (run sys_init ops')) 10 = true /\ delivered (mg (run sys_init ops')) 10 = true /\
+  delivered (mg (run sys_init ops')) 11 = false /\ mem 11 (paused (cl (run sys_init ops'))) = true.
 Proof. vm_compute. repeat split. Qed.
 
-(* every reachable state in the good class is well-formed on the client side *)
-Theorem C02_client_wf : forall ops, no_resub_all sys_init ops = true -> c_wf (cl (run sys_init ops)) = true.
-Proof. intros ops H. exact (Inv_c_wf _ (run_Inv ops sys_init Inv_init H)). Qed.
+(* every reachable state is well-formed on the client side: subscribed and paused disjoint, ALL only as the
+   singleton that stands for the subscribed-to-all state *)
+Theorem C02_client_wf : forall ops, c_wf (cl (run sys_init ops)) = true.
+Proof. intros ops. exact (Inv_c_wf _ (run_Inv ops sys_init Inv_init)). Qed.
 
 (* the manager-side result of a call depends on msg_list only as a set: neither the iteration order of
    the python set `msg_set` nor duplicates matter *)
@@ -106,7 +101,7 @@ Proof. vm_compute. split; reflexivity. Qed.
          (exists s_in s', subscription_context s l = (CtxOk s', Some s_in) /\ same_client (cl s) (cl s')) /\
          (exists s_in s', paused_subscription_context s l = (CtxOk s', Some s_in) /\ same_client (cl s) (cl s')).
 
-   It is FALSE of the current code, for three recorded reasons:
+   It is FALSE of the current code, for two recorded reasons (three witnesses below):
      ctx:skip-after-removed   `for mt in msg_list: ... msg_list.remove(mt)` never examines the entry that
                               follows a removed one (adjacent already-subscribed entries, duplicates)
      ctx:paused-on-entry      subscription_context([t]) with t paused on entry leaves t neither subscribed
@@ -136,35 +131,35 @@ Proof.
   vm_compute in E. inversion E; subst. specialize (H 3). vm_compute in H. discriminate.
 Qed.
 
-(* Exact characterisation: from every good-class state, exit restores the entry state (client sets AND what
+(* Exact characterisation: from every reachable state, exit restores the entry state (client sets AND what
    the manager delivers) if and only if the decidable side condition holds - sub_ctx_ok: every entry that
    survived the filtering loop is neither subscribed nor paused on entry; pause_ctx_ok: every survivor is
    subscribed on entry.  Inside the body every listed type is subscribed (resp. not delivered). *)
 Theorem C02_ctx_restore_partial : forall ops l, let s := run sys_init ops in
-  no_resub_all sys_init ops = true -> sub_all (cl s) = false -> mem ALL_MESSAGE_TYPES l = false ->
+  sub_all (cl s) = false -> mem ALL_MESSAGE_TYPES l = false ->
   sub_ctx_ok (cl s) l = true ->
   exists s_in s', subscription_context s l = (CtxOk s', Some s_in) /\
     same_client (cl s) (cl s') /\ (forall t, delivered (mg s') t = delivered (mg s) t) /\
     (forall t, mem t l = true -> reported (cl s_in) t = true /\ delivered (mg s_in) t = true).
-Proof. intros ops l s H. exact (sub_ctx_restore s l (run_Inv ops sys_init Inv_init H)). Qed.
+Proof. intros ops l s. exact (sub_ctx_restore s l (run_Inv ops sys_init Inv_init)). Qed.
 
 Theorem C02_pause_ctx_restore_partial : forall ops l, let s := run sys_init ops in
-  no_resub_all sys_init ops = true -> sub_all (cl s) = false -> mem ALL_MESSAGE_TYPES l = false ->
+  sub_all (cl s) = false -> mem ALL_MESSAGE_TYPES l = false ->
   pause_ctx_ok (cl s) l = true ->
   exists s_in s', paused_subscription_context s l = (CtxOk s', Some s_in) /\
     same_client (cl s) (cl s') /\ (forall t, delivered (mg s') t = delivered (mg s) t) /\
     (forall t, mem t l = true -> reported (cl s_in) t = false /\ delivered (mg s_in) t = false).
-Proof. intros ops l s H. exact (pause_ctx_restore s l (run_Inv ops sys_init Inv_init H)). Qed.
+Proof. intros ops l s. exact (pause_ctx_restore s l (run_Inv ops sys_init Inv_init)). Qed.
 
 (* the side conditions exclude exactly the failing class *)
 Theorem C02_ctx_restore_exact : forall ops l, let s := run sys_init ops in
-  no_resub_all sys_init ops = true -> sub_all (cl s) = false -> mem ALL_MESSAGE_TYPES l = false ->
+  sub_all (cl s) = false -> mem ALL_MESSAGE_TYPES l = false ->
   (sub_ctx_ok (cl s) l = false ->
      exists s_in s', subscription_context s l = (CtxOk s', Some s_in) /\ ~ same_client (cl s) (cl s')) /\
   (pause_ctx_ok (cl s) l = false ->
      exists s_in s', paused_subscription_context s l = (CtxOk s', Some s_in) /\ ~ same_client (cl s) (cl s')).
 Proof.
-  intros ops l s H A HA. pose proof (run_Inv ops sys_init Inv_init H) as I. split.
+  intros ops l s A HA. pose proof (run_Inv ops sys_init Inv_init) as I. split.
   - exact (sub_ctx_not_restored s l I A HA).
   - exact (pause_ctx_not_restored s l I A HA).
 Qed.
@@ -201,7 +196,7 @@ Proof. exact iter_remove_total. Qed.
 (* non-vacuity: overlapping lists for which the side conditions hold, from a non-trivial state *)
 Example C02_ctx_partial_nonvacuous :
   let ops := [OSub [1; 2; 3]; OPause [3; 4]] in let s := run sys_init ops in
-  no_resub_all sys_init ops = true /\ sub_all (cl s) = false /\
+  sub_all (cl s) = false /\
   sub_ctx_ok (cl s) [1; 5; 2; 6] = true /\ pause_ctx_ok (cl s) [1; 5; 2] = true /\
   sub_ctx_ok (cl s) [1; 2; 6] = false /\ sub_ctx_ok (cl s) [3] = false /\ pause_ctx_ok (cl s) [5; 6] = false.
 Proof. vm_compute. repeat split. Qed.
